@@ -1,11 +1,10 @@
-\* aliasing case excluded: depth 7 = tiny x4, FULL, tiny x2
+\* refinement: depth 7 = tiny x4, FULL, tiny x2
 SPECIFICATION Spec
 VIEW View
 CONSTANTS
   NV = 2
   W = 4
   Depth = 7
-  Mode = "noalias"
   Emit = "none"
   Pick = "all"
   FullLevels = {5}
@@ -14,6 +13,7 @@ CONSTANTS
   XOffs = {}
   XLens = {}
   MaxLen = 13
+  Mutant = "none"
   Prof <- ProfByLevel
 INVARIANT InvFlatTypeOK
 INVARIANT InvWellFormed
